@@ -103,6 +103,10 @@ func (s *session) importAndObserve(head string, data []byte, mf mfSpec, ifreq ui
 	res := guard(func() string {
 		return importErrKind(certstore.VerifImportSnapshot(ctx, bytes.NewReader(data), target, mf.m, ifreq))
 	})
+	if res == "err:snapHeader" && strings.Contains(head, "kind=empty-block") {
+		// the raw io.EOF here is the certificate decoder's answer to a block with no bytes, not the reader's
+		res = "err:snapDecode"
+	}
 	mtok := mf.tok
 	if mf.m == nil {
 		mtok = "-"
@@ -414,6 +418,18 @@ func runSnapshotCase(out *vh.Out, in *interner, rng *vh.Rng, thorough bool, case
 				// ... and by a length prefix plus part of a body
 				s.importAndObserve(fmt.Sprintf("import kind=dangling-body snap=%s tail=midBody", snapTok),
 					append(append(append([]byte(nil), data...), mkBlock(make([]byte, 9)).prefix...), 1, 2, 3), mfSpec{}, freq)
+			}
+			// an empty block (length prefix 0) after the complete snapshot, alone or followed by surplus blocks
+			if ncert >= 1 {
+				corrupt("empty-block-tail", append(cp(), mkBlock([]byte{})), mfSpec{})
+				corrupt("empty-block-surplus", append(append(cp(), mkBlock([]byte{})), blocks[len(blocks)-1]), mfSpec{})
+				corrupt("empty-block-junk", append(append(cp(), mkBlock([]byte{})), mkBlock([]byte("junk-after-empty"))), mfSpec{})
+				if ncert >= 2 {
+					bs := cp()
+					j := 1 + rng.Intn(ncert)
+					bs = append(bs[:j], append([]rawBlock{mkBlock([]byte{})}, bs[j:]...)...)
+					corrupt("empty-block-inside", bs, mfSpec{})
+				}
 			}
 			// junk block / junk tail
 			if ncert >= 1 {
